@@ -382,7 +382,8 @@ def gen_ws_stream(r, hs=None, small=False):
             tail = "partial"
         elif x < 0.2:
             # oversize declaration, followed by some of its body
-            sz = r.choice([1473, 1474, 2000, 65535, 65536, 1 << 31, (1 << 63) + 5])
+            sz = r.choice([1473, 1474, 2000, 65535, 65536, 1 << 31, (1 << 63) + 5] +
+                          [(1 << k) + r.choice([0, 3, 100]) for k in (16, 24, 32, 40, 48, 56)])
             lf = 16 if sz < 65536 and r.random() < 0.7 else 64
             h = bytes([0x82, 0x80 | (126 if lf == 16 else 127)]) + sz.to_bytes(2 if lf == 16 else 8, "big") + gen_wire.rbytes(r, 4)
             parts.append(h + gen_wire.rbytes(r, r.choice([0, 0, 1, 50, 99, 100, 101, 200, 1500])))
@@ -498,7 +499,7 @@ def gen_wsc_stream(r, hs=None, small=False):
             parts.append(f[:r.randrange(1, len(f))])
             tail = "partial"
         elif x < 0.18:
-            sz = r.choice([1473, 2000, 65535, 1 << 31])
+            sz = r.choice([1473, 2000, 65535, 1 << 31] + [(1 << k) + r.choice([0, 3, 100]) for k in (16, 24, 32, 40, 48, 56)])
             lf = 16 if sz < 65536 else 64
             h = bytes([0x82, 126 if lf == 16 else 127]) + sz.to_bytes(2 if lf == 16 else 8, "big")
             parts.append(h + gen_wire.rbytes(r, r.choice([0, 50, 101, 300])))
